@@ -23,6 +23,7 @@ import (
 	"k8s.io/klog/v2"
 	"sigs.k8s.io/yaml"
 
+	"volcano.sh/volcano/pkg/controllers/sharding/policy"
 	"volcano.sh/volcano/pkg/controllers/sharding/policy/allocationrate"
 )
 
@@ -151,8 +152,39 @@ func ParseShardingConfig(data []byte) (*ShardingConfig, error) {
 		if err := validatePolicies(i, sc.Name, sc.Policies); err != nil {
 			return nil, err
 		}
+		// The chain the manager will run is the one applyPolicyDefaults
+		// synthesizes; check on a copy that every policy of it can be built.
+		effective := sc
+		effective.Policies = append([]PolicySpec(nil), sc.Policies...)
+		applyPolicyDefaults(&effective)
+		if err := validatePolicyChain(i, sc.Name, effective.Policies); err != nil {
+			return nil, err
+		}
+		for j := 0; j < i; j++ {
+			if cfg.SchedulerConfigs[j].Name == sc.Name {
+				return nil, fmt.Errorf("schedulerConfigs[%d] (%s): scheduler name already used by schedulerConfigs[%d]", i, sc.Name, j)
+			}
+		}
 	}
 	return cfg, nil
+}
+
+// validatePolicyChain builds and initializes every policy of a chain once,
+// the way ShardingManager.initializePolicies will. A chain with an
+// unregistered policy or rejected arguments must not reach the manager: it
+// would leave this scheduler, and every scheduler configured after it, without
+// any policy (no filter, no node limit).
+func validatePolicyChain(specIdx int, schedName string, policies []PolicySpec) error {
+	for j, p := range policies {
+		builder, err := policy.GetPolicy(p.Name)
+		if err != nil {
+			return fmt.Errorf("schedulerConfigs[%d] (%s): policies[%d]: %v", specIdx, schedName, j, err)
+		}
+		if err := builder().Initialize(policy.Arguments(p.Arguments)); err != nil {
+			return fmt.Errorf("schedulerConfigs[%d] (%s): policies[%d] (%s): %v", specIdx, schedName, j, p.Name, err)
+		}
+	}
+	return nil
 }
 
 // validatePolicies checks per-policy constraints that apply regardless of
